@@ -1437,7 +1437,13 @@ func (h *vC03Hist) serveMsgChase(s vC03Spec) {
 	var ids []uint64
 	if !reached && writer.Written() {
 		m := writer.Msg()
-		if m == nil || m.Rcode != dns.RcodeSuccess {
+		if m != nil && m.Rcode == dns.RcodeServerFailure {
+			// an alias of the chain points back at the question (any spelling): the reply serves nothing
+			if len(m.Answer) != 0 {
+				h.failf("msg-chase request %v: SERVFAIL reply carries %d answer records", s, len(m.Answer))
+			}
+			ids = []uint64{0}
+		} else if m == nil || m.Rcode != dns.RcodeSuccess {
 			h.failf("msg-chase request %v answered %v", s, m)
 		} else {
 			ids = h.chainIDs(m)
@@ -1525,12 +1531,20 @@ func (h *vC03Hist) msgChaseHistory(clientClass uint16) {
 			if r.Intn(4) == 0 {
 				depth = r.Intn(hops + 1) // a partition whose chain stops early
 			}
+			// one partition in five closes its chain into a loop: its last alias points back at the start
+			// name, re-spelled in another letter case (the self-alias test folds case since fix a4faf69)
+			loopBack := depth > 0 && r.Intn(5) == 0
 			cur := start
 			for i := 0; i < hops && i < depth; i++ {
 				sp := vC03Spec{q: vC03Q{name: vC03MixCase(r, cur), qtype: pt.qt, qclass: pt.qc}, cd: pt.cd}
 				id := h.nextID
 				h.nextID++
-				h.setAliasTagged(sp, sp, vC03MixCase(r, targets[i]), id, true)
+				tgt := vC03MixCase(r, targets[i])
+				if loopBack && (i == hops-1 || i == depth-1) {
+					tgt = vC03MixCase(r, start)
+					depth = i + 1 // nothing is stored beyond the loop
+				}
+				h.setAliasTagged(sp, sp, tgt, id, true)
 				cur = targets[i]
 			}
 			if depth > hops {
